@@ -132,6 +132,12 @@ def run_step(w: World, op: dict, *, probes=None, index_every=True) -> StepResult
                 "C13", "refused-op-changed-state",
                 f"{op['k']} raised {exc_name} ({plan.trigger}) but the tree changed",
                 plan.trigger))
+            if plan.owner == "C07":
+                # C07: "the source ... is left unchanged" - also by a copy that fails
+                viol.append(Violation(
+                    "C07", "failed-copy-changed-source",
+                    f"{op['k']} raised {exc_name} and the source branch / tree changed",
+                    plan.trigger))
     elif plan.contract == O.ANYRESULT:
         # accepted: the outcome is not specified, the tree must stay well-formed
         res.outcome = "ok"
